@@ -24,6 +24,8 @@ TEXTS = [
     "namespace other { class Pose { Pose(); void serialize() const; }; enum E { X }; }",
     "namespace camera { class Params { Params(); enum Kind { A, B }; camera::Params::Kind kind() const; }; }",
     "namespace solver { class Params { Params(); enum Mode { X }; }; class PARAMS { PARAMS(); enum Mode { Y }; }; }",
+    # a serializable two-argument instantiation whose C++ name, with `,:<> ` removed, equals that of gt::Pair<int, double> above
+    "class i { i(); }; class ntdouble { ntdouble(); };\nnamespace gt { template<A = {i}, B = {ntdouble}> class Pair { Pair(); void serialize() const; }; }",
 ]
 NT = len(TEXTS)
 
